@@ -18,6 +18,14 @@ type Tracker struct {
 	M     *Model
 	Ambig map[Key]map[int64][]Val // lasting: duplicates inside one acknowledged batch
 
+	// Ever holds every value ever acknowledged for a (key, timestamp).
+	Ever map[Key]map[int64][]Val
+	// TolerateResurrected makes CheckRead accept (and count) a point that a
+	// completed delete removed but that once held the returned value: that is
+	// a violation of the delete property (C10), not of write durability.
+	TolerateResurrected bool
+	Resurrected         int
+
 	// Pending describes the one operation in flight (crash images only).
 	PendingWrite  []Point
 	PendingDelete *PendingDel
@@ -31,11 +39,11 @@ type PendingDel struct {
 }
 
 func NewTracker() *Tracker {
-	return &Tracker{M: New(), Ambig: map[Key]map[int64][]Val{}}
+	return &Tracker{M: New(), Ambig: map[Key]map[int64][]Val{}, Ever: map[Key]map[int64][]Val{}}
 }
 
 func (t *Tracker) Clone() *Tracker {
-	n := &Tracker{M: t.M.Clone(), Ambig: map[Key]map[int64][]Val{}}
+	n := &Tracker{M: t.M.Clone(), Ambig: map[Key]map[int64][]Val{}, Ever: t.Ever, TolerateResurrected: t.TolerateResurrected}
 	for k, tv := range t.Ambig {
 		c := map[int64][]Val{}
 		for ts, vs := range tv {
@@ -61,6 +69,19 @@ func (t *Tracker) ApplyWrite(batch []Point) int {
 			if a := t.Ambig[Key{id, f}]; a != nil {
 				delete(a, p.Time)
 			}
+		}
+	}
+	for _, p := range batch {
+		if t.M.Conflicts(p) {
+			continue
+		}
+		id := p.Series.ID()
+		for f, v := range p.Fields {
+			k := Key{id, f}
+			if t.Ever[k] == nil {
+				t.Ever[k] = map[int64][]Val{}
+			}
+			t.Ever[k][p.Time] = append(t.Ever[k][p.Time], v)
 		}
 	}
 	dropped, amb := t.M.Write(batch)
@@ -167,6 +188,10 @@ func (t *Tracker) CheckRead(k Key, got []TV, min, max int64, asc bool) *Mismatch
 		}
 		e, ok := exp[p.T]
 		if !ok {
+			if t.TolerateResurrected && t.wasEver(k, p.T, p.V) {
+				t.Resurrected++
+				continue
+			}
 			return &Mismatch{"unexpected-point", k, p.T, p.V.String(), "no point at this timestamp"}
 		}
 		okv := false
@@ -192,6 +217,15 @@ func (t *Tracker) CheckRead(k Key, got []TV, min, max int64, asc bool) *Mismatch
 		return &Mismatch{"missing-point", k, missing[0], fmt.Sprintf("absent (%d missing in range, %d returned)", len(missing), len(got)), fmt.Sprint(exp[missing[0]].Vals)}
 	}
 	return nil
+}
+
+func (t *Tracker) wasEver(k Key, ts int64, v Val) bool {
+	for _, x := range t.Ever[k][ts] {
+		if x.Equal(v) {
+			return true
+		}
+	}
+	return false
 }
 
 // CheckAll reads every key of the model (plus pending ones) through both read
